@@ -66,7 +66,7 @@ WriteRow(w) == /\ phase = "work" /\ pc[w] = "write"
                /\ UNCHANGED <<cfg, phase, cap, reader, held>>
 
 Next == Plan \/ WriteHeader \/ \E w \in Workers : Take(w) \/ WriteRow(w)
-Spec == Init /\ [][Next]_mvars
+Spec == Init /\ [][Next]_mvars /\ WF_mvars(Next)
 
 Done == phase = "work" /\ \A w \in Workers : pc[w] = "exit"
 
@@ -83,5 +83,7 @@ Tiling == Done => /\ Covered = 0..(cap - 1)
 RowOrder == \A x \in writes : x.n >= 0 => x.off = HdrLen + RowLen * x.n
 EachOnce == Done => \A i \in 0..(cfg.n - 1) : Cardinality({x \in writes : x.n = i}) = 1
 \* nobody holds a record twice / records are handed out in order without gaps
+\* every run ends: all workers leave once the reader is exhausted
+Terminates == <>Done
 HeldDistinct == \A v, w \in Workers : (v # w /\ pc[v] = "write" /\ pc[w] = "write") => held[v] # held[w]
 =============================================================================
